@@ -480,8 +480,10 @@ impl<R: BufRead> TextReportReader<R> {
 
     fn read_extract(&mut self, regex: &Regex, name: &str) -> io::Result<Vec<String>> {
         let line = self.read_line()?;
+        // strip the line terminator only: blanks at the end of the last argument or of the
+        // base directory belong to the data
         Ok(regex
-            .captures(line.trim())
+            .captures(line.trim_end_matches(['\n', '\r']))
             .ok_or_else(|| {
                 Error::new(
                     ErrorKind::InvalidData,
@@ -564,7 +566,13 @@ impl<R: BufRead + Send + 'static> ReportReader for TextReportReader<R> {
             )
         })?;
         let base_dir = self.read_extract(&BASE_DIR_RE, "base dir")?.swap_remove(0);
-        let base_dir = Path::from(base_dir);
+        // the base directory is written in the escaped form, like the paths of the groups
+        let base_dir = Path::from_escaped_string(&base_dir).map_err(|e| {
+            Error::new(
+                ErrorKind::InvalidData,
+                format!("Malformed header: Failed to parse base dir: {e}"),
+            )
+        })?;
 
         let stats = self.read_extract(&TOTAL_RE, "total file statistics")?;
         let total_file_size = Self::parse_file_len(stats.first(), "total file size")?;
